@@ -88,6 +88,21 @@ def leaveGroupBodyOK (apiVersion : Int) (want : List String) (wireMember : Strin
   if apiVersion < 3 then (match want with | m :: _ => wireMember == m | [] => true) && wireMembers.isEmpty
   else wireMembers == want
 
+/-- first version that has the option on the wire (Kafka protocol guide): DescribeConfigs IncludeSynonyms v1,
+IncludeDocumentation v3; DescribeGroups IncludeAuthorizedOperations v3 -/
+def optionSince (apiKey : Nat) (option : String) : Option Int :=
+  match apiKey, option with
+  | 32, "IncludeSynonyms" => some 1
+  | 32, "IncludeDocumentation" => some 3
+  | 15, "IncludeAuthorizedOperations" => some 3
+  | _, _ => none
+
+/-- an option the caller switched on arrives switched on exactly when the request's version has it -/
+def optionOK (apiKey : Nat) (option : String) (apiVersion : Int) (arrived : Bool) : Bool :=
+  match optionSince apiKey option with
+  | some since => arrived == decide (since ≤ apiVersion)
+  | none => true
+
 /-! ### leader clause (monitor over a plain description of the cluster) -/
 
 /-- cluster facts as the fake cluster holds them: partition → leader -/
